@@ -603,83 +603,94 @@ impl<'a> Socket<'a> {
         F: FnOnce(&mut Context, (IpRepr, IcmpRepr)) -> Result<(), E>,
     {
         let hop_limit = self.hop_limit.unwrap_or(64);
-        let res = self.tx_buffer.dequeue_with(|remote_endpoint, packet_buf| {
-            net_trace!(
-                "icmp:{}: sending {} octets",
-                remote_endpoint,
-                packet_buf.len()
-            );
-            match *remote_endpoint {
-                #[cfg(feature = "proto-ipv4")]
-                IpAddress::Ipv4(dst_addr) => {
-                    let src_addr = match cx.get_source_address_ipv4(&dst_addr) {
-                        Some(addr) => addr,
-                        None => {
-                            net_trace!(
-                                "icmp:{}: not find suitable source address, dropping",
-                                remote_endpoint
-                            );
-                            return Ok(());
-                        }
-                    };
-                    let packet = Icmpv4Packet::new_unchecked(&*packet_buf);
-                    let repr = match Icmpv4Repr::parse(&packet, &ChecksumCapabilities::ignored()) {
-                        Ok(x) => x,
-                        Err(_) => {
-                            net_trace!(
-                                "icmp:{}: malformed packet in queue, dropping",
-                                remote_endpoint
-                            );
-                            return Ok(());
-                        }
-                    };
-                    let ip_repr = IpRepr::Ipv4(Ipv4Repr {
-                        src_addr,
-                        dst_addr,
-                        next_header: IpProtocol::Icmp,
-                        payload_len: repr.buffer_len(),
-                        hop_limit,
-                    });
-                    emit(cx, (ip_repr, IcmpRepr::Ipv4(repr)))
-                }
-                #[cfg(feature = "proto-ipv6")]
-                IpAddress::Ipv6(dst_addr) => {
-                    let src_addr = cx.get_source_address_ipv6(&dst_addr);
+        // A queued packet that cannot be sent (no source address, malformed) is dropped
+        // without anything being emitted. Go on with the next one in that case: returning
+        // would leave the socket asking for an immediate poll after a poll that transmitted
+        // nothing.
+        let mut emit = Some(emit);
+        loop {
+            let res = self.tx_buffer.dequeue_with(|remote_endpoint, packet_buf| {
+                net_trace!(
+                    "icmp:{}: sending {} octets",
+                    remote_endpoint,
+                    packet_buf.len()
+                );
+                match *remote_endpoint {
+                    #[cfg(feature = "proto-ipv4")]
+                    IpAddress::Ipv4(dst_addr) => {
+                        let src_addr = match cx.get_source_address_ipv4(&dst_addr) {
+                            Some(addr) => addr,
+                            None => {
+                                net_trace!(
+                                    "icmp:{}: not find suitable source address, dropping",
+                                    remote_endpoint
+                                );
+                                return Ok(());
+                            }
+                        };
+                        let packet = Icmpv4Packet::new_unchecked(&*packet_buf);
+                        let repr =
+                            match Icmpv4Repr::parse(&packet, &ChecksumCapabilities::ignored()) {
+                                Ok(x) => x,
+                                Err(_) => {
+                                    net_trace!(
+                                        "icmp:{}: malformed packet in queue, dropping",
+                                        remote_endpoint
+                                    );
+                                    return Ok(());
+                                }
+                            };
+                        let ip_repr = IpRepr::Ipv4(Ipv4Repr {
+                            src_addr,
+                            dst_addr,
+                            next_header: IpProtocol::Icmp,
+                            payload_len: repr.buffer_len(),
+                            hop_limit,
+                        });
+                        (emit.take().unwrap())(cx, (ip_repr, IcmpRepr::Ipv4(repr)))
+                    }
+                    #[cfg(feature = "proto-ipv6")]
+                    IpAddress::Ipv6(dst_addr) => {
+                        let src_addr = cx.get_source_address_ipv6(&dst_addr);
 
-                    let packet = Icmpv6Packet::new_unchecked(&*packet_buf);
-                    let repr = match Icmpv6Repr::parse(
-                        &src_addr,
-                        &dst_addr,
-                        &packet,
-                        &ChecksumCapabilities::ignored(),
-                    ) {
-                        Ok(x) => x,
-                        Err(_) => {
-                            net_trace!(
-                                "icmp:{}: malformed packet in queue, dropping",
-                                remote_endpoint
-                            );
-                            return Ok(());
-                        }
-                    };
-                    let ip_repr = IpRepr::Ipv6(Ipv6Repr {
-                        src_addr,
-                        dst_addr,
-                        next_header: IpProtocol::Icmpv6,
-                        payload_len: repr.buffer_len(),
-                        hop_limit,
-                    });
-                    emit(cx, (ip_repr, IcmpRepr::Ipv6(repr)))
+                        let packet = Icmpv6Packet::new_unchecked(&*packet_buf);
+                        let repr = match Icmpv6Repr::parse(
+                            &src_addr,
+                            &dst_addr,
+                            &packet,
+                            &ChecksumCapabilities::ignored(),
+                        ) {
+                            Ok(x) => x,
+                            Err(_) => {
+                                net_trace!(
+                                    "icmp:{}: malformed packet in queue, dropping",
+                                    remote_endpoint
+                                );
+                                return Ok(());
+                            }
+                        };
+                        let ip_repr = IpRepr::Ipv6(Ipv6Repr {
+                            src_addr,
+                            dst_addr,
+                            next_header: IpProtocol::Icmpv6,
+                            payload_len: repr.buffer_len(),
+                            hop_limit,
+                        });
+                        (emit.take().unwrap())(cx, (ip_repr, IcmpRepr::Ipv6(repr)))
+                    }
                 }
-            }
-        });
-        match res {
-            Err(Empty) => Ok(()),
-            Ok(Err(e)) => Err(e),
-            Ok(Ok(())) => {
-                #[cfg(feature = "async")]
-                self.tx_waker.wake();
-                Ok(())
+            });
+            match res {
+                Err(Empty) => return Ok(()),
+                Ok(Err(e)) => return Err(e),
+                Ok(Ok(())) => {
+                    #[cfg(feature = "async")]
+                    self.tx_waker.wake();
+                    // NOTE: `emit` is taken exactly when a packet was handed on.
+                    if emit.is_none() {
+                        return Ok(());
+                    }
+                }
             }
         }
     }
